@@ -87,6 +87,12 @@ def innermost_loop(body, b):
     return best
 
 
+def _prepare_region(facts):
+    import syncorder
+
+    return syncorder.owned_region(facts, PREPARE)
+
+
 def u1(facts, rep):
     n = 0
     # (i) what is reported
@@ -148,6 +154,8 @@ def u1(facts, rep):
                 continue
             n += 1
             root = body.id.split("::{closure")[0]
+            if root != PREPARE and root in _prepare_region(facts):
+                root = PREPARE  # a private phase of prepare_sync (`SyncBatch::finish`)
             rep.check(root == PREPARE and m in ("fetch_add", "fetch_sub"), "U1", short(body.id), "counter-writer|" + m, "the occupied-bucket counter is modified with `%s` in %s: only DB::prepare_sync may apply its delta (fetch_add / fetch_sub)" % (m, short(body.id)), site=t.get("ln"), detail="fetch_add / fetch_sub of the sync's delta")
     # (iv) pairing inside prepare_sync
     ps = facts.body(PREPARE)
@@ -160,10 +168,11 @@ def u1(facts, rep):
                     deltas.setdefault(a["pl"]["l"], []).append((b, "inc" if "Add" in s["rv"]["op"] else "dec", s.get("ln")))
     # the delta local is the one that reaches the fetch_add / fetch_sub
     applied = set()
-    for b, t in ps.calls():
-        c = t.get("callee") or ""
-        if c.startswith("core::sync::atomic::") and c.rsplit("::", 1)[1] in ("fetch_add", "fetch_sub") and t["args"] and _on_counter(ps, t["args"][0]):
-            applied.add(b)
+    for pb in [ps] + [facts.bodies[x] for x in sorted(_prepare_region(facts)) if facts.bodies[x].kind != "Closure"]:
+        for b, t in pb.calls():
+            c = t.get("callee") or ""
+            if c.startswith("core::sync::atomic::") and c.rsplit("::", 1)[1] in ("fetch_add", "fetch_sub") and t["args"] and _on_counter(pb, t["args"][0]):
+                applied.add((pb.id, b))
     n += 1
     rep.check(len(applied) >= 2, "U1", short(PREPARE), "delta-applied", "prepare_sync no longer applies both signs of its occupancy delta to the counter", site=ps.span, detail="fetch_add and fetch_sub sites: %s" % sorted(applied))
     steps = [x for l in deltas for x in deltas[l]]
@@ -239,7 +248,9 @@ def u2(facts, rep):
     if rep.check(len(cs) == 1, "U2", short(FINISH), "calls-commit", "SyncFinisher::finish no longer calls FreeList::commit exactly once", site=fb.span, detail="free_list.commit(page_pool, freed, ..)"):
         (b, t) = cs[0]
         n += 1
-        rep.check(any(r.kind == "param" and r.what == 3 for a in t["args"] for r in trace(fb, a)), "U2", short(FINISH), "commit(freed)", "FreeList::commit at %s is not given the `freed` pages of finish: released pages are never put on the free list" % t.get("ln"), site=t.get("ln"), detail="commit(.., freed, ..)")
+        import termination
+
+        rep.check(any(termination.derives_from(fb, a, lambda r: r.kind == "param" and r.what == 3) for a in t["args"]), "U2", short(FINISH), "commit(freed)", "FreeList::commit at %s is not given the `freed` pages of finish: released pages are never put on the free list" % t.get("ln"), site=t.get("ln"), detail="commit(.., freed, ..)")
     # (c) commit -> push_and_encode
     cm = facts.body(FL_COMMIT)
     ps_ = [(b, t) for b, t in cm.calls() if t.get("callee") == PUSH_ENCODE]
@@ -247,7 +258,9 @@ def u2(facts, rep):
     if rep.check(len(ps_) >= 1, "U2", short(FL_COMMIT), "calls-push_and_encode", "FreeList::commit no longer encodes the pushed pages", site=cm.span, detail="push_and_encode(page_pool, &to_push, new_pages)"):
         for (b, t) in ps_:
             n += 1
-            rep.check(any(r.kind == "param" and r.what == 3 for a in t["args"] for r in trace(cm, a)), "U2", short(FL_COMMIT), "push(to_push)", "push_and_encode at %s is not given the `to_push` pages of commit" % t.get("ln"), site=t.get("ln"), detail="push_and_encode(.., &to_push, ..)")
+            import termination
+
+            rep.check(any(termination.derives_from(cm, a, lambda r: r.kind == "param" and r.what == 3) for a in t["args"]), "U2", short(FL_COMMIT), "push(to_push)", "push_and_encode at %s is not given the `to_push` pages of commit" % t.get("ln"), site=t.get("ln"), detail="push_and_encode(.., &to_push, ..)")
     # (d) each stage fills freed_pages from `deleted` and from `extra_freed`
     for stage_mod, out_ty in (("nomt::beatree::ops::update::leaf_stage::", "LeafStageOutput"), ("nomt::beatree::ops::update::branch_stage::", "BranchStageOutput")):
         srcs = set()
